@@ -135,6 +135,34 @@ CHECKS["C15"] = dict(engine="Sanitize", design_ref="§5 C15",
     note=COMMON_TRUST + "; a secret is recognised in plain, percent-encoded and base64 forms only; the server log decides which routes were exercised; the MustCarry "
          "table (which sink shows which field) is part of the spec; response and request bodies are outside the property's carriers")
 
+CHECKS["C06"] = dict(engine="Wire", design_ref="§5 C06",
+    technique="TLA+ Wire.tla: decoders (RFC 3986 percent-decoding, UTF-8, flat JSON, urlencoded, OpenAPI 3.0 / Swagger 2.0 style tables) as fold automata, checked "
+              "by TLC to invert the table's own encoder; TLC-enumerated descriptor family replayed through the real serializer, quoting and the requests / WSGI / ASGI "
+              "transports; every recorded request judged by WireJudge.tla; differential Python cross-check",
+    text="Wire.tla states the property as decoders written as fold automata; TLC checks on every family element that these decoders invert the reference encoder. TLC "
+         "enumerates the bounded family (127 parameter definitions x values over {a 1 space % + / . & = , ; e-acute}, '.'/'..', empty, booleans, null, 0, arrays/objects "
+         "<=2; 7 base URLs x 3 templates; JSON/form/text bodies; quick 7 209 elements / 43 485 requests, thorough 57 420 / 360 354). Each element is driven through the "
+         "real generation chain, the coverage template and explicit cases, over the requests, WSGI and ASGI transports, and every recorded request is judged by TLC "
+         "for URL composition, parameter recovery up to string coercion, nothing extra, headers, Content-Type and body round trip. Inputs without a defined decoding are "
+         "three-valued U and counted as skipped. 26 known-finding signatures (matrix style, coverage-phase serializer order, raw dot segments / tab / ';' in explicit "
+         "path values, label null) are listed in known_findings.json.",
+    note=COMMON_TRUST + "; exhaustive only within the stated alphabet and length bounds; trusts that the loopback server, werkzeug environ and starlette-testclient "
+         "scope report requests faithfully and that injecting the value at the draw point exercises the generation chain (cross-checked on a sample); multipart, XML, "
+         "binary bodies, non-ASCII header/cookie values, empty composites, items containing the delimiter and exploded cookies are skipped")
+CHECKS["C09"] = dict(engine="Curl", design_ref="§5 C09",
+    technique="TLA+ Curl.tla: POSIX sh tokenisation and curl option semantics as fold automata, TLC-checked (quote round trip, a faithful command exists for every "
+              "in-fragment request); TLC-enumerated adversarial strings in 8 slots; commands from the real code judged by CurlJudge.tla; the sh/curl model is "
+              "validated on every run against the real /bin/sh + curl on a stratified sample",
+    text="Curl.tla models sh word splitting (unquoted, single, double quotes, backslash) and curl's -X, -H (incl. the empty-value and 'Name;' rules), -d (incl. leading "
+         "'@' and default Content-Type), --data-raw, --insecure and the URL. For every enumerated string over {a ' \" \\ $ ` space newline @ ; : & %} in every slot "
+         "(header value, Authorization, query, path, cookie, text / JSON / form body; quick 5 858 elements, thorough 76 162) a real case is sent, as_curl_command is "
+         "called with that request's headers as the CLI does, and TLC decides that the interpreted command equals the received original on method, target, body and "
+         "own headers; the same with sanitisation on, up to redacted values. A stratified sample (150 / 3 000) is executed by real sh + curl against the scripted "
+         "server and the received request must equal both the model's prediction and the original.",
+    note=COMMON_TRUST + "; bounded to the 13-character alphabet, length <=3 (<=4 for header and body in thorough); headers the clients add themselves and the test-case "
+         "id header are not compared; curl runs in an empty working directory; dot segments and URL globbing are outside the model; non-ASCII header values and binary "
+         "payloads are excluded by the property itself")
+
 REASON_PENDING = "no check registered yet: spec/harness for this property is still being built (DESIGN.md §10 build order); nothing is claimed"
 
 
